@@ -58,7 +58,8 @@ def strategy(tier):
         amt = st.sampled_from(amts)
         sub = st.lists(st.tuples(st.sampled_from(["add", "remove"]), ki, amt), max_size=3).map(lambda l: [list(x) for x in l])
         op = st.one_of(st.tuples(st.just("add"), ki, amt), st.tuples(st.just("add"), ki, amt),
-                       st.tuples(st.just("remove"), ki, amt),
+                       st.tuples(st.just("remove"), ki, amt), st.tuples(st.just("pin_release"), ki, amt),
+                       st.tuples(st.just("freeze"), ki, ki),
                        st.tuples(st.sampled_from(setop_names), sub))
         return st.lists(op, min_size=1, max_size=8).map(lambda l: [list(x) for x in l])
 
@@ -154,7 +155,12 @@ def _run_cms(case, ctx):
         g = ctx.call(nx, CountMinSketch.frombytes, raw, hf)
         ctx.check("C16.export", bytes(g) == raw, f"{what}: frombytes(bytes()) re-exports differently")
 
-    for op in case["ops"]:
+    ops = []
+    for op in case["ops"]:  # pin_release: drive a key to the limit and take the same amount away again (small total, pinned cells)
+        if op[0] == "freeze":
+            op = ["pin_release", op[1], I32MAX]
+        ops += [["add", op[1], op[2]], ["remove", op[1], op[2]]] if op[0] == "pin_release" else [op]
+    for op in ops:
         kind = op[0]
         if kind in ("add", "remove"):
             k = pool[op[1] % len(pool)]
@@ -166,7 +172,8 @@ def _run_cms(case, ctx):
                 c = ctx.call(nx, o.check, k)
                 ctx.check("C16.cms_cells", c == r, lambda: f"{kind}({k!r},{n}) returned {r} but check says {c}")
             else:
-                ctx.call(nx, o.check, k)
+                c = ctx.call(nx, o.check, k)
+                ctx.check("C16.cms_cells", c == r, lambda: f"{qt} query: {kind}({k!r},{n}) returned {r} but check says {c} right afterwards")
             ctx.op(kind, op[1] % len(pool), n)
         else:  # join
             s = CountMinSketch(width=w, depth=d, hash_function=hf)
@@ -232,7 +239,15 @@ def _run_cb(case, ctx):
             cs[p] = min(cs[p] + n, U32MAX)
         return min(min(v + n, U32MAX) for v in pre)
 
+    ops = []
     for op in case["ops"]:
+        if op[0] == "freeze":
+            # two keys sharing a cell: the shared cell reaches the limit and stays frozen while both keys are taken out again,
+            # leaving pinned cells under a tiny element total
+            ops += [["add", op[1], U32MAX - 1], ["add", op[2], 1], ["remove", op[1], U32MAX - 1], ["remove", op[2], 1]]
+        else:
+            ops += [["add", op[1], op[2]], ["remove", op[1], op[2]]] if op[0] == "pin_release" else [op]
+    for op in ops:
         kind = op[0]
         if kind in ("add", "remove"):
             key = pool[op[1] % len(pool)]
